@@ -232,10 +232,12 @@ def cases_for(rng, n, ctx, tmp):
             r = _quiet(lambda: pe.input.json.dump_dict_to_json(x, fn, gz=gz, indent=indent))
             y = r if isinstance(r, Exception) else _quiet(lambda: pe.input.json.load_json_dict(fn, gz=gz, verbose=False))
             cases.append({'id': cid, 'ev': 'roundtrip', 'fmt': 'json-dict', 'before': before, 'after': _after(y)})
+            cases.append({'id': cid + '-source', 'ev': 'roundtrip', 'fmt': 'the exported dictionary itself after the export', 'before': before, 'after': _after(x)})
         else:
             x = [make_structure(rng, k) for k in ('obs', 'list', 'corr')] if kind == 'multi' else make_structure(rng, kind)
             before = doc_any(x)
             dn0 = analysis_numbers(x)
+            src, src_before = x, before
             if transport in ('df_csv', 'df_sql'):
                 cells = x if kind == 'multi' else [x]
                 cells = [c for c in cells if isinstance(c, (pe.Obs, pe.Corr))] or [make_structure(rng, 'obs')]
@@ -253,6 +255,7 @@ def cases_for(rng, n, ctx, tmp):
                 before = doc_any([list(df['idx']), list(df['label']), list(df['data'])])
                 dn0 = analysis_numbers(list(df['data']))
                 x = list(df['data'])
+                src, src_before = x, doc_any(x)
                 if transport == 'df_csv':
                     r = _quiet(lambda: pe.input.pandas.dump_df(df, fn, gz=gz))
                     y = r if isinstance(r, Exception) else _quiet(lambda: pe.input.pandas.load_df(fn, gz=gz))
@@ -289,6 +292,8 @@ def cases_for(rng, n, ctx, tmp):
                         cases.append(ev)
         if not isinstance(y, Exception):
             cases.append({'id': cid + '-reanalysis', 'ev': 'reanalysis', 'before': dn0, 'after': analysis_numbers(y)})
+        if kind != 'dict' and i % 2 == 0:
+            cases.append({'id': cid + '-source', 'ev': 'roundtrip', 'fmt': 'the exported object itself after the export', 'before': src_before, 'after': _after(src)})
         ctx.nontrivial.add((kind, transport, gz, indent, i))
         if len(ctx.samples) < 4:
             ctx.sample({'id': cid, 'structure': kind, 'transport': transport, 'gz': gz, 'indent': indent})
